@@ -208,9 +208,14 @@ def do_prop(a):
                 bounded["skipped_outside_requires"] = bounded.get("skipped_outside_requires", 0) + extra_b["skipped_outside_requires"]
                 bounded.setdefault("per_function", {}).update(extra_b["per_function"])
                 bounded.setdefault("failures", []).extend(extra_b["failures"])
+            for bk, bv in (bounded.get("per_function") or {}).items():
+                if isinstance(bv, str) and bv.startswith("skipped"):
+                    # a run-time contract that could not be evaluated (its sampler raised / it no longer binds): nothing
+                    # was checked for that function - undecided, never silently fine
+                    undecided_tasks.append({"target": bk, "cfg_label": "bounded", "message": bv})
             bounded["ran"] = True
             bounded["label"] = "BOUNDED stand-in (run-time contract evaluation on the real functions): never counted as proved"
-            bounded["derived_evaluations"] = "every sample is also evaluated with its >= 2-D arrays (incl. those inside xarray objects) in Fortran / mixed memory order; the first samples of each function also under two call histories (results of an identical earlier call scribbled over; the same input array objects changed in place); the samplers of the callee contracts the targets rely on are run as well"
+            bounded["derived_evaluations"] = "every sample is also evaluated with its >= 2-D arrays (incl. those inside xarray objects) in Fortran / mixed memory order; the first samples of each function also with (some of) their float64 arrays rounded and cast to int64 (dtype variants); the first samples of each function also under two call histories (results of an identical earlier call scribbled over; the same input array objects changed in place); the samplers of the callee contracts the targets rely on are run as well"
             bounded["wall_s"] = round(time.time() - tb, 2)
             bounded_failures = bounded.pop("failures", [])
             bounded["failures_n"] = len(bounded_failures)
